@@ -165,7 +165,11 @@ class Chem:
         except Exception:
             return False
 
+    EXTRA = {"Fix_H+": "H+"}          # pH-stat pseudo phase defined by the generated inputs (PHASES block)
+
     def formula_of(self, name):
+        if name in self.EXTRA:
+            return parse_formula(self.EXTRA[name])
         """elements of one mole of `name`: a phase of the database, else a formula (as reaction_calc does)"""
         if name in self.phases:
             return parse_formula(self.phases[name])
@@ -493,6 +497,47 @@ def lu(rng, lo, hi):
     return math.exp(rng.uniform(math.log(lo), math.log(hi)))
 
 
+ALT_MENU = {"Gypsum": ["CaSO4:2H2O", "CaSO4", "CaCl2", "Na2SO4"], "Calcite": ["CaCO3", "CaCl2", "NaHCO3", "Ca(OH)2"]}
+ACIDS, BASES = ["HCl", "H2SO4", "HNO3"], ["NaOH", "KOH", "Ca(OH)2"]
+
+
+def pp_parse(m):
+    """amount field of a generated pure-phase line -> (alternative formula or None, moles text, flag or None)"""
+    if isinstance(m, str):
+        t = m.split()
+        if re.match(r"^[-+0-9.]", t[0]):
+            return None, t[0], (t[1] if len(t) > 1 else None)
+        return t[0], t[1], None
+    return None, fnum(m), None
+
+
+def pp_alt(c):
+    return pp_parse(c[2])[0]
+
+
+def stat_comp(rng, ch, avoid):
+    acid = rng.random() < 0.5
+    menu = [f for f in (ACIDS if acid else BASES) if ch.knows(f) and f != avoid]
+    f = rng.choice(menu)
+    ph = round(rng.uniform(4.0, 5.5) if acid else rng.uniform(9.3, 10.5), 2)
+    return ("Fix_H+", -ph, "%s %s" % (f, rng.choice([0.1, 0.1, 0.01, 1])))
+
+
+def redef_comp(rng, ch, c):
+    nm, si, m = c
+    alt, moles, flag = pp_parse(m)
+    if nm == "Fix_H+":
+        return stat_comp(rng, ch, alt)
+    if alt:
+        menu = [f for f in ALT_MENU.get(nm, []) if f != alt and ch.knows(f)]
+        if menu:
+            return (nm, si, "%s %s" % (rng.choice(menu), fnum(rng.choice([1e-3, 0.01, 0.1]))))
+        return c
+    if flag:
+        return c
+    return (nm, si, rng.choice([0, 1e-4, 1e-3, 0.01]))
+
+
 def gen_system(rng):
     """-> dict describing one random one-cell system with a chain of USE/SAVE simulations"""
     db = rng.choice(["phreeqc.dat"] * 6 + ["wateq4f.dat", "Amm.dat", "pitzer.dat", "pitzer.dat"])
@@ -530,6 +575,11 @@ def gen_system(rng):
         if rng.random() < 0.3:
             comps.append(("CO2(g)", round(rng.uniform(-3.5, -1.0), 2), rng.choice([10, 0.01, 0.001])))
         S["pp"] = comps
+    S["fixph"] = False
+    if rng.random() < 0.3:
+        # pH-stat idiom: pseudo phase Fix_H+ with an alternative reactant
+        S["fixph"] = True
+        S["pp"] = (S["pp"] or []) + [stat_comp(rng, ch, None)]
     S["gas"] = None
     if rng.random() < 0.4:
         gm = [g for g in GAS_MENU if g in ch.phases]
@@ -547,6 +597,7 @@ def gen_system(rng):
                     "time": rng.choice([100, 1000, 3600, 86400]), "nsteps": rng.choice([1, 1, 2, 3]),
                     "rk": rng.choice([3, 3, 6, "cvode"])}
     nsim = rng.choice([1, 2, 2, 3, 4])
+    cur_pp = S["pp"]
     for k in range(nsim):
         sim = {"incr": rng.random() < 0.5}
         if nsol > 1 and rng.random() < 0.6:
@@ -574,6 +625,12 @@ def gen_system(rng):
         if rng.random() < 0.15:
             sim["temps"] = [rng.choice([20, 25, 30, 40]) for _ in range(rng.choice([2, 3, 5]))]
         sim["run_cells"] = rng.random() < 0.2
+        # redefinition of EQUILIBRIUM_PHASES 1 with the SAME phases but other alternative reactants / targets / amounts:
+        # the equation set of the previous calculation may be reused (check_same_model) although the stoichiometry changed
+        sim["pp_redef"] = None
+        if cur_pp and any(pp_alt(c) for c in cur_pp) and rng.random() < 0.6:
+            cur_pp = [redef_comp(rng, ch, c) for c in cur_pp]
+            sim["pp_redef"] = cur_pp
         S["sims"].append(sim)
     return S
 
@@ -588,6 +645,13 @@ def rates_block(kin):
             out.append("  10 rate = parm(1) * M / M0")
         out += ["  20 moles = rate * TIME", "  30 if (moles > M) then moles = M", "  40 SAVE moles", "  -end"]
     return out
+
+
+def render_pp(comps):
+    L = ["EQUILIBRIUM_PHASES 1"]
+    for nm, si, m in comps:
+        L.append("  %s %s %s" % (nm, si, m if isinstance(m, str) else fnum(m)))
+    return L
 
 
 def render_input(S):
@@ -624,10 +688,10 @@ def render_input(S):
               "donnan_oci": ["  -donnan", "  -only_counter_ions"],
               "ccm": ["  -ccm %s" % sf.get("cap", 1.06)],
               "cd_music": ["  -cd_music", "  -capacitances 1 5"]}[sf["mode"]]
+    if S.get("fixph"):
+        L.append("PHASES\n  Fix_H+\n    H+ = H+\n    log_k 0.0")
     if S["pp"]:
-        L.append("EQUILIBRIUM_PHASES 1")
-        for nm, si, m in S["pp"]:
-            L.append("  %s %s %s" % (nm, si, m if isinstance(m, str) else fnum(m)))
+        L += render_pp(S["pp"])
     g = S["gas"]
     if g:
         L.append("GAS_PHASE 1")
@@ -677,6 +741,8 @@ def render_input(S):
             L.append("DELETE\n  -mix 1\n  -reaction 1\n  -reaction_temperature 1\nEND")
             simno += 2
             L.append("INCREMENTAL_REACTIONS %s" % ("true" if sim["incr"] else "false"))
+            if sim.get("pp_redef"):
+                L += render_pp(sim["pp_redef"])
             if sim["mix"]:
                 L.append("MIX 1")
                 for n, f in sim["mix"]:
@@ -694,6 +760,8 @@ def render_input(S):
         simno += 1
         sim["_simno"] = simno
         L.append("INCREMENTAL_REACTIONS %s" % ("true" if sim["incr"] else "false"))
+        if sim.get("pp_redef"):
+            L += render_pp(sim["pp_redef"])
         if sim["mix"]:
             L.append("MIX 1")
             for n, f in sim["mix"]:
@@ -772,6 +840,22 @@ KINDS = [("EXCHANGE", "exchange"), ("SURFACE", "surface"), ("GAS_PHASE", "gas"),
          ("SOLID_SOLUTIONS", "ss"), ("KINETICS", "kin")]
 
 
+def pp_def_block(chem, comps):
+    """a freshly defined EQUILIBRIUM_PHASES block in the shape parse_dump gives (std::map order = sorted by name)"""
+    b, elts = [], set()
+    for nm, si, m in sorted(comps, key=lambda c: c[0]):
+        alt, moles, flag = pp_parse(m)
+        b.append(("component", [nm], []))
+        if alt:
+            b.append(("add_formula", [alt], []))
+            elts |= set(chem.formula_of(alt))
+        elts |= set(chem.formula_of(nm))
+        b.append(("moles", [moles], []))
+        b.append(("precipitate_only", ["1" if flag == "precipitate_only" else "0"], []))
+    b.append(("eltList", [], [[e, "1"] for e in sorted(elts)]))
+    return b
+
+
 class Skip(Exception):
     pass
 
@@ -829,6 +913,8 @@ def build_cases(chem, S, result):
                 ib, ia = inv_phases(chem, eb), inv_phases(chem, ea)
                 amounts += [c["moles"] for c in ea]
             elif key == "pp":
+                if sim.get("pp_redef"):
+                    bb = pp_def_block(chem, sim["pp_redef"])
                 eb, ea = ent_pp(bb), ent_pp(ba)
                 cb[key], ca[key] = copt(c_pp(chem, bb, eb)), copt(c_pp(chem, ba, ea))
                 ib, ia = inv_phases(chem, eb), inv_phases(chem, ea)
@@ -870,7 +956,7 @@ def build_cases(chem, S, result):
         steprows = []
         alt_elts = set()
         if S["pp"]:
-            for c_ in ent_pp(prev[("EQUILIBRIUM_PHASES", 1)]):
+            for c_ in ent_pp(pp_def_block(chem, sim["pp_redef"]) if sim.get("pp_redef") else prev[("EQUILIBRIUM_PHASES", 1)]):
                 if c_.get("add_formula"):
                     alt_elts |= set(chem.formula_of(c_["add_formula"]))
         base = dict(expected)
@@ -988,7 +1074,18 @@ def corpus_systems():
     cdm = json.loads(json.dumps(ccm))
     cdm["surface"]["mode"] = "cd_music"
     cdm["corpus"] = "cd_music-surface-save-use-chain"
-    return [rk, probe, ccm, cdm]
+    stat = {"db": "phreeqc.dat",
+            "sols": [{"n": 1, "pH": 7.0, "temp": 25, "water": 1, "comp": [("Na", 160.0), ("C(4)", 1.0), ("Ca", 20.0)]}],
+            "exchange": None, "surface": None, "gas": None, "ss": None, "kin": None, "fixph": True,
+            "pp": [("Fix_H+", -5.0, "HCl 0.1"), ("Gypsum", 0.0, "CaSO4 0.01")],
+            "sims": [{"incr": False, "mix": None, "temps": None, "run_cells": False, "rxn": None, "pp_redef": None},
+                     {"incr": False, "mix": None, "temps": None, "run_cells": False, "rxn": None,
+                      "pp_redef": [("Fix_H+", -10.0, "NaOH 0.1"), ("Gypsum", 0.0, "CaCl2 0.01")]},
+                     {"incr": False, "mix": None, "temps": None, "run_cells": True,
+                      "rxn": {"reactants": [("NaCl", 1)], "units": "mmol", "equal": False, "steps": [1.0], "count": 1},
+                      "pp_redef": [("Fix_H+", -4.5, "H2SO4 0.1"), ("Gypsum", 0.0, "Na2SO4 0.01")]}],
+            "corpus": "pH-stat-alternative-reactant-redefined"}
+    return [rk, probe, ccm, cdm, stat]
 
 
 def features(S):
@@ -1001,6 +1098,10 @@ def features(S):
         f.append("reaction")
     if any(s["incr"] for s in S["sims"]):
         f.append("incremental")
+    if S.get("fixph"):
+        f.append("pH-stat")
+    if any(s.get("pp_redef") for s in S["sims"]):
+        f.append("pp_redefined")
     if any(s.get("run_cells") for s in S["sims"]):
         f.append("run_cells")
     f.append("chain%d" % len(S["sims"]))
